@@ -280,6 +280,7 @@ fn cmd_child_check(args: &[String]) -> i32 {
                 "world": b.world, "runs": res.runs, "operations": res.ops, "invariant_evaluations": res.evals,
                 "wall_s": (res.wall_s * 1000.0).round() / 1000.0,
                 "distinct_event_logs": res.distinct_logs.len(),
+                "slowest_run_seed": res.slowest.0, "slowest_run_ms": res.slowest.1,
             }));
             match first {
                 None => break,
@@ -499,7 +500,13 @@ fn cmd_run_one(args: &[String]) -> i32 {
     };
     let target = arg_val(args, "--target").unwrap_or_else(|| "*".into());
     let seed: u64 = arg_val(args, "--seed").and_then(|s| s.parse().ok()).unwrap_or(1);
-    let plan = world.generate(seed, &target, has_flag(args, "--thorough"));
+    let mut plan = world.generate(seed, &target, has_flag(args, "--thorough"));
+    if has_flag(args, "--no-arena") {
+        plan.cfg.insert("arena".into(), 0);
+    }
+    if let Some(n) = arg_val(args, "--max-ops").and_then(|s| s.parse::<usize>().ok()) {
+        plan.ops.truncate(n);
+    }
     runner::warm_up();
     let out = execute_plan(world, &plan, has_flag(args, "--trace"));
     if !has_flag(args, "--quiet") {
